@@ -738,3 +738,22 @@ M("C16", "benign-getitem-temporaries", "_collections.py", "        val = self._c
 M("C16", "benign-iteritems-local-spelling", "_collections.py", "            for val in vals[1:]:\n                yield vals[0], val", "            spelling = vals[0]\n            rest = vals[1:]\n            for val in rest:\n                yield spelling, val", rule=None, benign=True)
 S("C03", "generator-exit-is-clean", "C01-R6")
 MUTANTS.append(dict(prop="C03", name="fixed:F15-early-release-recycles-unread-body", patch="selftest/patches/f15_fix.diff", reverse=True, rule="C03-R8", benign=False))
+S("C07", "matcher-loses-end-anchor", "C08-R1")
+S("C09", "hostname-check-decided-once", "C07-R3")
+S("C05", "disabled-total-stays-false", "C04-R9")
+M("C08", "benign-rematch-with-anchors", "util/ssl_match_hostname.py",
+  "    pat = re.compile(r\"\\A\" + r\"\\.\".join(pats) + r\"\\Z\", re.IGNORECASE)\n    return pat.match(hostname)",
+  "    return re.match(r\"\\A\" + r\"\\.\".join(pats) + r\"\\Z\", hostname, re.IGNORECASE)", rule=None, benign=True)
+M("C08", "benign-fullmatch", "util/ssl_match_hostname.py",
+  "    pat = re.compile(r\"\\A\" + r\"\\.\".join(pats) + r\"\\Z\", re.IGNORECASE)\n    return pat.match(hostname)",
+  "    body = r\"\\.\".join(pats)\n    return re.fullmatch(body, hostname, flags=re.IGNORECASE)", rule=None, benign=True)
+M("C08", "benign-extend-generator", "util/ssl_match_hostname.py",
+  "    for frag in remainder:\n        pats.append(re.escape(frag))", "    pats.extend(re.escape(frag) for frag in remainder)", rule=None, benign=True)
+M("C08", "benign-rename-locals", "util/ssl_match_hostname.py",
+  "    leftmost = parts[0]\n    remainder = parts[1:]\n\n    wildcards = leftmost.count(\"*\")",
+  "    leftmost = first_label = parts[0]\n    remainder = parts[1:]\n\n    wildcards = first_label.count(\"*\")", rule=None, benign=True)
+M("C08", "rematch-without-end-anchor", "util/ssl_match_hostname.py",
+  "    pat = re.compile(r\"\\A\" + r\"\\.\".join(pats) + r\"\\Z\", re.IGNORECASE)\n    return pat.match(hostname)",
+  "    return re.match(r\"\\.\".join(pats), hostname, re.IGNORECASE)", rule="C08-R1")
+M("C08", "dollar-instead-of-Z", "util/ssl_match_hostname.py", "+ r\"\\Z\", re.IGNORECASE)", "+ r\"$\", re.IGNORECASE)", rule="C08-R1")
+M("C08", "last-label-dropped", "util/ssl_match_hostname.py", "    for frag in remainder:\n        pats.append(re.escape(frag))", "    for frag in remainder[:-1]:\n        pats.append(re.escape(frag))", rule="C08-R1")
